@@ -100,26 +100,61 @@ def server_case(kind):
     a, b = gsocket.socketpair()
     ev = []
     st = {'done': None, 'at': None}
-    handlers = SmtpSession(('127.0.0.1', 1), SmtpValidators, lambda env: [(env, 'id')])
-    server = Server(b, handlers, ('127.0.0.1', 1), context=srv_ctx(), tls_immediately=(kind == 'immediate-silent'),
-                    command_timeout=CMD_T, data_timeout=DATA_T)
+    # the session as the library's own edge runs it: SmtpEdge.handle() = Server.handle() and then the teardown of the
+    # connection (for a TLS session: the closing handshake) - a session is over when that has returned
+    from slimta.edge.smtp import SmtpEdge
+
+    class _Q(object):
+        def enqueue(self, env):
+            return [(env, 'id')]
+    edge = SmtpEdge(('127.0.0.1', 0), _Q(), context=srv_ctx(), tls_immediately=kind.startswith('immediate'),
+                    command_timeout=CMD_T, data_timeout=DATA_T, hostname='edge.example')
 
     def run():
         try:
-            server.handle()
-            st['done'] = 'return'
-        except ConnectionLost:
-            st['done'] = 'ConnectionLost'
+            edge.handle(b, ('127.0.0.1', 1))
+            st['done'] = 'ConnectionLost'          # (the edge swallows ConnectionLost: a timed-out session ends this way)
         except BaseException as e:  # noqa
             st['done'] = 'exc:' + type(e).__name__
         finally:
             st['at'] = int(CLOCK.now)
-            try:
-                server.io.close()
-            except BaseException:  # noqa
-                pass
     g = gevent.spawn(run)
     pump()
+    tls = {'sock': None}
+
+    def handshake():
+        """the client's half of the TLS handshake, completed"""
+        c = cli_ctx().wrap_socket(a, do_handshake_on_connect=False)
+        hs = gevent.spawn(c.do_handshake)
+        for _ in range(100):
+            if hs.ready():
+                break
+            pump(0.01)
+        tls['sock'] = c
+        return hs.ready() and hs.exception is None
+
+    def tls_read():
+        """whatever complete replies have arrived inside the TLS session (without blocking: gevent.Timeout is virtual)"""
+        c = tls['sock']
+        buf = b''
+        gevent.sleep(0.05)
+        c.setblocking(False)
+        try:
+            while True:
+                try:
+                    d = c.recv(4096)
+                except (gssl.SSLWantReadError, gssl.SSLWantWriteError, BlockingIOError):
+                    break
+                except Exception:  # noqa
+                    break
+                if not d:
+                    break
+                buf += d
+        finally:
+            c.setblocking(True)
+        for m in REPLY.finditer(buf):
+            if m.group(2) == b' ':
+                ev.append({'t': 'reply', 'code': int(m.group(1)), 'nl': 1})
 
     def cmd(kind_, data):
         ev.append({'t': 'cmd', 'kind': kind_, 'wf': 1, 'addr': 0, 'content': 0, 'now': int(CLOCK.now)})
@@ -130,6 +165,12 @@ def server_case(kind):
     last = 1000
     if kind == 'immediate-silent':
         ev.append({'t': 'cmd', 'kind': 'BANNER', 'wf': 1, 'addr': 0, 'content': 0, 'now': 1000})
+    elif kind == 'immediate-done-silent':
+        # the handshake completes, the greeting arrives inside the TLS session, and then the client says nothing more
+        ev.append({'t': 'cmd', 'kind': 'BANNER', 'wf': 1, 'addr': 0, 'content': 0, 'now': 1000})
+        handshake()
+        pump()
+        tls_read()
     else:
         cmd('BANNER', b'')
         cmd('EHLO', b'EHLO c.example\r\n')
@@ -138,6 +179,14 @@ def server_case(kind):
         if kind == 'starttls-partial':
             a.sendall(b'\x16\x03\x01\x00\x05hel')     # the beginning of a TLS record, never completed
             pump()
+        if kind == 'starttls-done-silent':
+            # the handshake completes, one command is exchanged inside the TLS session, then silence
+            handshake()
+            ev.append({'t': 'cmd', 'kind': 'EHLO', 'wf': 1, 'addr': 0, 'content': 0, 'now': int(CLOCK.now)})
+            tls['sock'].sendall(b'EHLO c.example\r\n')
+            pump()
+            tls_read()
+            last = int(CLOCK.now)
     # time passes; the peer stays silent
     for _ in range(6):
         if st['done'] or CLOCK.next_deadline() is None:
@@ -146,7 +195,10 @@ def server_case(kind):
         pump()
         ev.append({'t': 'advance', 'now': int(CLOCK.now)})
     pump()
-    read_replies(a, ev)
+    if tls['sock'] is not None:
+        tls_read()
+    else:
+        read_replies(a, ev)
     if st['done']:
         ev.append({'t': 'closed', 'how': st['done'], 'junk': 0, 'peer_eof': False, 'now': st['at']})
     else:
@@ -316,7 +368,7 @@ def main():
     out, shard, nshards, tier, seed, mode = sys.argv[1], int(sys.argv[2]), int(sys.argv[3]), sys.argv[4], int(sys.argv[5]), sys.argv[6]
     f = open(out, 'w')
     stats = {'executions': 0}
-    cases = ([('s', k) for k in ('starttls-silent', 'starttls-partial', 'immediate-silent')] if mode == 'server'
+    cases = ([('s', k) for k in ('starttls-silent', 'starttls-partial', 'immediate-silent', 'starttls-done-silent', 'immediate-done-silent')] if mode == 'server'
              else [('r', k) for k in ('immediate', 'starttls', 'starttls-default', 'defaultsock-banner', 'defaultsock-mail')])
     n = 0
     for i, (which, k) in enumerate(cases):
